@@ -208,14 +208,17 @@ func (st *State) compWF(key string, t Term) {
 			return
 		}
 		r := leaf
+		extra := ""
 		switch kind {
 		case 2:
 			r = app(SInt, "ival", leaf)
+			extra = fmt.Sprintf(" (>= (itag %s) 0) (=> (= (itag %s) 0) (= (ival %s) 0))", leaf.S, leaf.S, leaf.S)
 		case 3:
 			r = app(SInt, "sarr", leaf)
+			extra = fmt.Sprintf(" (<= 0 (soff %s)) (<= 0 (slen %s)) (<= (slen %s) (scap %s)) (=> (= (sarr %s) 0) (= (scap %s) 0))", leaf.S, leaf.S, leaf.S, leaf.S, leaf.S, leaf.S)
 		}
 		// only allocated objects (first index below the allocation counter) are constrained
-		st.emit(fmt.Sprintf("(assert (forall (%s) (! (=> (< wf0 %s) (and (>= %s 0) (<= (+ (* %d %s) %d) %s))) :pattern (%s))))", strings.Join(vars, " "), st.next.S, r.S, allocFactor, r.S, allocFactor, st.next.S, leaf.S))
+		st.emit(fmt.Sprintf("(assert (forall (%s) (! (=> (< wf0 %s) (and (>= %s 0) (<= (+ (* %d %s) %d) %s)%s)) :pattern (%s))))", strings.Join(vars, " "), st.next.S, r.S, allocFactor, r.S, allocFactor, st.next.S, extra, leaf.S))
 	}
 }
 
